@@ -78,5 +78,23 @@ class DeadlineRaces(srv.SrvHarness):
         ]
 
 
-HARNESSES = {'overshoot': Overshoot, 'deadlines': Deadlines, 'deadline_races': DeadlineRaces}
-PLAN = {'quick': ['overshoot', 'deadlines', 'deadline_races'], 'thorough': ['overshoot', 'deadlines', 'deadline_races']}
+class AsyncOvershoot(srv.ASrvHarness):
+    """the same races on AsyncServer (callers are tasks on a virtual event loop; the gather thread is a real thread)"""
+    name = 'async_overshoot'
+
+    def configs(self, tier):
+        quick = tier == 'quick'
+        O = ['backlog', 'shutdown']
+        return [
+            dict(topo='single', capacity=1, calls=[[[0, 10, False]], [[1, 10, False]], [[2, 10, False]]],
+                 oracles=O, bound=2, cap=100000 if quick else 1000000),
+            dict(topo='single', capacity=1, calls=[[[0, 10, True]], [[1, 10, False]], [[2, 10, True]]],
+                 oracles=O, bound=1 if quick else 2, cap=100000 if quick else 1000000),
+            dict(topo='single', capacity=1, gated=['A'], fail={'A': [1]}, calls=[[[0, 10, False]], [[1, 10, False]], [[2, 3, False]]],
+                 oracles=O + ['timing'], bound=1 if quick else 2, cap=100000 if quick else 1000000),
+        ]
+
+
+HARNESSES = {'async_overshoot': AsyncOvershoot, 'overshoot': Overshoot, 'deadlines': Deadlines, 'deadline_races': DeadlineRaces}
+PLAN = {'quick': ['overshoot', 'deadlines', 'deadline_races', 'async_overshoot'],
+        'thorough': ['overshoot', 'deadlines', 'deadline_races', 'async_overshoot']}
